@@ -391,18 +391,24 @@ def state_preservation(tier, seed):
             '<!DOCTYPE r SYSTEM "http://x/r.dtd"><r/>',
             '<?xml version="1.0"?><!DOCTYPE r [<!ENTITY e "x">]><r>&e;</r>', '<!--c--><!DOCTYPE r [<!ENTITY e "x">]><r a="&e;"/>',
             '<?pi d?>\n<!DOCTYPE r [<!ENTITY e "x">]><r>&e;</r>', '<?xml version="1.0" encoding="utf-8"?>\n<!-- c -->\n<!DOCTYPE r [<!ENTITY e SYSTEM "file:///etc/hostname">]><r>&e;</r>']
+    import xml.etree.ElementTree as _ET0
+    import lxml.etree as _LX0
+    # the library parses with the XML library of the context tree: no tree, an xml.etree tree, an lxml element and an lxml document as root
+    contexts = [('no tree', lambda: dict(root=None, item=1)), ('xml.etree tree', lambda: dict(root=_ET0.XML('<c/>'))), ('lxml element', lambda: dict(root=_LX0.XML('<c/>'))),
+                ('lxml document', lambda: dict(root=_LX0.ElementTree(_LX0.XML('<c/>'))))]
     for d in docs:
         for fnname in ('parse-xml', 'parse-xml-fragment'):
-            n += 1
-            try:
-                r = XPath31Parser().parse(f'{fnname}($d)').evaluate(elementpath.XPathContext(root=None, item=1, variables={'d': d}))
-            except ElementPathError:
-                continue
-            except Exception as x:      # noqa
-                bad(f'{fnname}: a document with a DOCTYPE raises a non-XPath error', doc=d, exc=type(x).__name__)
-                continue
-            if 'ENTITY' in d and fnname == 'parse-xml':
-                bad(f'{fnname}: a DOCTYPE declaring entities is accepted', doc=d, got=repr(r)[:60])
+            for cname, mkctx in contexts:
+                n += 1
+                try:
+                    r = XPath31Parser().parse(f'{fnname}($d)').evaluate(elementpath.XPathContext(variables={'d': d}, **mkctx()))
+                except ElementPathError:
+                    continue
+                except Exception as x:      # noqa
+                    bad(f'{fnname}: a document with a DOCTYPE raises a non-XPath error', doc=d, exc=type(x).__name__, context=cname)
+                    continue
+                if 'ENTITY' in d and fnname == 'parse-xml':
+                    bad(f'{fnname}: a DOCTYPE declaring entities is accepted' + ('' if cname == 'no tree' else f' (context: {cname})'), doc=d, got=repr(r)[:60], context=cname)
     # module-level caches are not corrupted by a history of character classes
     import unicodedata
     oracle = {r'\p{Lu}': lambda c: unicodedata.category(c) == 'Lu', r'\p{Ll}': lambda c: unicodedata.category(c) == 'Ll',
